@@ -24,6 +24,7 @@ type Check struct {
 	Rule        string // how cases are enumerated and what makes one non-trivial
 	Assumptions []string
 	Shards      int           // 0 = default (16)
+	Procs       int           // GOMAXPROCS of each worker (0 = 2)
 	Cap         time.Duration // thorough time cap per worker (0 = default)
 	Bounds      func(thorough bool) map[string]any
 	Post        func(tier string, seed int64, m *core.Part) // optional parent-side phase (e.g. -race pass)
@@ -200,7 +201,11 @@ func cmdCheck(args []string) int {
 			ctx, cancel := context.WithTimeout(context.Background(), workerLimit(*tier, capS))
 			defer cancel()
 			cmd := exec.CommandContext(ctx, exe, wa...)
-			cmd.Env = append(os.Environ(), "GOMAXPROCS=2")
+			procs := chk.Procs
+			if procs == 0 {
+				procs = 2
+			}
+			cmd.Env = append(os.Environ(), fmt.Sprintf("GOMAXPROCS=%d", procs))
 			logf := filepath.Join(tmp, fmt.Sprintf("log%d.txt", i))
 			lf, _ := os.Create(logf)
 			cmd.Stdout, cmd.Stderr = lf, lf
